@@ -61,6 +61,31 @@ func (e *Exec) checkBeginBlock(pre, post *AppState, exp *BBExpect, h int64) {
 				"validator A%d (stake %s, %s) lost %s in BeginBlock of height %d; the statement gives %s (cause %s)", acct, pv.StakedTokens, pv.Status, delta, h, w, c))
 		}
 	}
+	// awards: exactly the queued sum is newly minted (supply delta), when nothing is burned in the same block
+	if len(exp.Slashes) == 0 && pre.Supply != nil && post.Supply != nil {
+		wantMint := new(big.Int)
+		for _, a := range exp.AwardsMinted {
+			wantMint.Add(wantMint, a)
+		}
+		got := new(big.Int).Sub(post.Supply, pre.Supply)
+		if got.Cmp(wantMint) != 0 {
+			e.addViol(viol("C10", "award-mint-exact", e.step, map[string]string{"awards": fmt.Sprint(len(exp.AwardsMinted) > 0)},
+				"BeginBlock of height %d changed the supply by %s; the awards queued for it sum to %s", h, got, wantMint))
+		}
+		if len(exp.AwardsMinted) > 0 {
+			e.res.Stats.Probe("awards_minted")
+		}
+		if len(exp.AwardsMinted) > 1 {
+			e.res.Stats.Probe("several_award_recipients_in_one_block")
+		}
+	}
+	if exp.FeesPaid != nil && exp.FeesPaid.Sign() > 0 {
+		if exp.FeesTo >= 0 {
+			e.res.Stats.Probe("fees_to_proposer")
+		} else {
+			e.res.Stats.Probe("fees_stay_in_pos_module_account")
+		}
+	}
 	// downtime decision
 	expJ := map[int]bool{}
 	for _, a := range exp.DowntimeJailed {
@@ -98,10 +123,25 @@ func (e *Exec) checkHaltState(pre, at *AppState, exp *BBExpect) {
 	if at.Supply == nil || e.m.Desync != "" {
 		return
 	}
-	if at.Supply.Cmp(e.m.Supply) < 0 {
+	// the statement promises an effect (burn, force-unstake, tombstone) for inputs it covers; a block
+	// that cannot complete on such inputs never delivers it
+	if exp.ExpectHalt == "" && len(exp.Slashes) > 0 {
+		cause, forced := exp.Slashes[len(exp.Slashes)-1].Cause, false
+		for _, s := range exp.Slashes {
+			forced = forced || s.Forced
+		}
+		e.addViol(viol("C07", "slash-not-applied-block-halted", e.step, map[string]string{"cause": cause, "forced_unstake": fmt.Sprint(forced)},
+			"BeginBlock halted (%s) on inputs the statement covers: %d slash(es) (last cause %s) were due in this block and can never be committed", e.firstHalt(), len(exp.Slashes), cause))
+	}
+	// lower bound: everything the statement lets this block burn, none of what it mints
+	lower := new(big.Int).Set(e.m.Supply)
+	for _, a := range exp.AwardsMinted {
+		lower.Sub(lower, a)
+	}
+	if at.Supply.Cmp(lower) < 0 {
 		e.addViol(viol("C07", "burn-without-cause", e.step, map[string]string{"at": "halt"},
 			"BeginBlock halted; at that instant the supply was %s, below the %s the statement allows after all slashes of this block (burned %s too much)",
-			at.Supply, e.m.Supply, new(big.Int).Sub(e.m.Supply, at.Supply)))
+			at.Supply, lower, new(big.Int).Sub(lower, at.Supply)))
 	}
 }
 
@@ -112,7 +152,6 @@ func (e *Exec) checkMaturities(pre, post *AppState, mats []Maturity, h int64) {
 		return
 	}
 	t := e.times[h]
-	min := e.paramInt(pre, "pos/StakeMinimum", 1000000)
 	addrs := make([]string, 0, len(pre.Vals))
 	for ah := range pre.Vals {
 		addrs = append(addrs, ah)
@@ -128,7 +167,7 @@ func (e *Exec) checkMaturities(pre, post *AppState, mats []Maturity, h int64) {
 			}
 			continue
 		}
-		due := !pv.UnstakingCompletionTime.After(time.Unix(0, t).UTC()) && !pv.StakedTokens.LT(sdk.NewInt(min))
+		due := !pv.UnstakingCompletionTime.After(time.Unix(0, t).UTC())
 		_, still := post.Vals[ah]
 		paid := new(big.Int).Sub(balOf(post, ah), balOf(pre, ah))
 		switch {
@@ -411,3 +450,12 @@ func executeCounting(tr *Trace) (map[int]int, *core.Result, error) {
 }
 
 var countHook map[int]int
+
+func (e *Exec) firstHalt() string {
+	for _, r := range e.reps {
+		if r.halted != "" {
+			return r.halted
+		}
+	}
+	return ""
+}
